@@ -173,6 +173,7 @@ def parseOp (ws : List String) : Option Act :=
   | ["nackobs", _] => some .note
   | ["blocked", _] => some .note      -- closerace: the Batch call did not return within its bound: NOT an acknowledgement
   | ["closehung"] => some (.bad "bad:close-did-not-return")
+  | ["lockcheck", "locked"] => some (.bad "bad:lock-not-released-after-close-error")
   | ["rmsnap", e, ok] => do pure (.ev (.cleanupRemoveSnap (← e.toNat?) (← b? ok)) fun _ => none)
   | ["rmseg", sid, ok, _] => do pure (.ev (.cleanupRemoveSeg (← sid.toNat?) (← b? ok)) fun _ => none)
   | ["ropen", rid, k, segs] => do pure (.ev (.readerOpen (← rid.toNat?) (← k.toNat?) (← parseList segs)) fun _ => none)
